@@ -228,7 +228,13 @@ class Machine(object):
             raise Unknown('call %s' % n.get('callee'))
         if k == 'CallExpr' and getattr(self, 'free', None) and n.get('callee') in self.free:
             # a free function the rule supplies a model for (justified by the rule that decides that function)
-            return trunc(self.free[n['callee']](*[self.rv(a) for a in n.get('args', [])]), n)
+            vals = []
+            for a in n.get('args', []):
+                try:
+                    vals.append(self.rv(a))
+                except Unknown:
+                    vals.append(None)      # the model decides whether it needs this argument
+            return trunc(self.free[n['callee']](*vals), n)
         if k == 'CallExpr' and (n.get('callee') or '').split('<')[0] in ('std::min', 'std::max') and len(n.get('args', [])) == 2:
             a, b = self.rv(n['args'][0]), self.rv(n['args'][1])
             return min(a, b) if 'min' in n['callee'].split('<')[0] else max(a, b)
